@@ -73,7 +73,16 @@ WideBad2(w) == <<83, 69, 76, 69, 67, 84, 32, 107, 44, w, 70, 82, 79, 77, 32, 116
 \* array type names spelt with letters whose lower-case form has another UTF-8 length (KELVIN SIGN, ANGSTROM SIGN, CAPITAL SHARP S, I WITH DOT ABOVE)
 TypePrefix == <<67, 82, 69, 65, 84, 69, 32, 84, 65, 66, 76, 69, 32, 116, 40, 108, 105, 110, 101, 32, 61, 32, 39, 97, 39, 44, 32, 108, 105, 110, 101, 91, 49, 93, 32, 61, 62, 32, 120, 32>>
 RareType(w, n) == TypePrefix \o [i \in 1..n |-> w] \o <<91, 93, 41, 59>>
-ExtraCases == {[kind |-> "patnest", text |-> RareType(w, n), allowed |-> {"err"}] : w \in {8490, 8491, 7838, 304}, n \in {1, 2}}
+\* an error next to a long word of multi-byte characters (2, 3 and 4 bytes each), at every alignment: the located excerpt must still be produced
+\*   CREATE TABLE t(line = '<word>' line[1] => x TEXT);      (the comma is missing)          SELECT k FROM t WHERE k = '<word>' '<word>'
+LongWord(pad, c, n) == <<39>> \o [i \in 1..pad |-> 97] \o [i \in 1..n |-> c] \o <<39>>
+LongWordBad1(pad, c, n) == <<67, 82, 69, 65, 84, 69, 32, 84, 65, 66, 76, 69, 32, 116, 40, 108, 105, 110, 101, 32, 61, 32>> \o LongWord(pad, c, n)
+                           \o <<32, 108, 105, 110, 101, 91, 49, 93, 32, 61, 62, 32, 120, 32, 84, 69, 88, 84, 41, 59>>
+LongWordBad2(pad, c, n) == <<83, 69, 76, 69, 67, 84, 32, 107, 32, 70, 82, 79, 77, 32, 116, 32, 87, 72, 69, 82, 69, 32, 107, 32, 61, 32>> \o LongWord(pad, c, n) \o <<32>> \o LongWord(pad, c, n)
+LongWordCases == {[kind |-> "bad", text |-> f, allowed |-> {"err"}] :
+                    f \in {LongWordBad1(pad, c, n) : pad \in 0..3, c \in {1078, 26085, 128512}, n \in {14, 19, 30, 45}}
+                          \cup {LongWordBad2(pad, c, n) : pad \in 0..3, c \in {1078, 26085, 128512}, n \in {14, 19, 30}}}
+ExtraCases == LongWordCases \cup {[kind |-> "patnest", text |-> RareType(w, n), allowed |-> {"err"}] : w \in {8490, 8491, 7838, 304}, n \in {1, 2}}
               \cup {[kind |-> "nest", text |-> NestTuple(n), allowed |-> {"ok", "err"}] : n \in {2, 8, 24, 48}}
               \cup {[kind |-> "bad", text |-> f, allowed |-> {"err"}] : f \in {WideBad(w) : w \in WideSpaces} \cup {WideBad2(w) : w \in WideSpaces}}
               \cup {[kind |-> "patnest", text |-> f, allowed |-> {"ok", "err"}] :
